@@ -89,7 +89,7 @@ def _traced_body(c, s, t, like, batches, bad, seen_inf_store, chk_store):
         hk.wrap(Resampler, "run", after=lambda ctx, r, self, w: chk_store("after Resampler.run"))
         attach.iteration_budget(hk, 400)
         try:
-            s.run(n_total=c["n_total"], progress=False)
+            s.run(n_total=c["n_total"], progress=runs.prog(c))
         except Exception as e:
             return dict(bad=[("run-raises", f"{type(e).__name__}: {e}")], warm=0, f=c["tkw"].get("f"), n_batches=len(batches), all_inf=any(b[0] == b[1] for b in batches))
     H = runs.history(s)
